@@ -830,6 +830,8 @@ void random_case(uint64_t idx, vh::Rng &r) {
             C.sig.add(e->id);
         } else if (op < 53) {
             Ev *e = r.pick(live);
+            if (badsig && r.chance(2, 3))     // keep events whose enable() failed short-lived: their signals are exempt from checks meanwhile
+                for (Ev *x : live) if (x->indeterminate) { e = x; break; }
             say(C, vh::fmt("destroy e%d (%s)", e->id, e->enabled ? "enabled" : "disabled"));
             op_compound(C, *C.loops[e->loop], {MiniOp{2, e}});
             C.sig.add(e->id);
@@ -857,7 +859,11 @@ void random_case(uint64_t idx, vh::Rng &r) {
         } else if (op < 64) {
             // change the disposition of a signal nobody is subscribed to (a new "before the first subscription")
             std::vector<int> free_sigs;
-            for (int si : C.used_sigs) if (model_count(C, si) == 0) free_sigs.push_back(si);
+            for (int si : C.used_sigs) {
+                bool maybe_held = false;    // an event whose enable() failed may still hold a subscription: not "nobody is subscribed"
+                for (auto &e : C.evs) if (e->alive && e->indeterminate && e->has(si)) maybe_held = true;
+                if (model_count(C, si) == 0 && !maybe_held) free_sigs.push_back(si);
+            }
             if (!free_sigs.empty()) {
                 int si = r.pick(free_sigs);
                 int kind = (int)r.below(D_KINDS_RANDOM);
@@ -872,9 +878,12 @@ void random_case(uint64_t idx, vh::Rng &r) {
             if (!selfmod && r.chance(1, 5)) nd = r.chance(1, 5) ? 11 + (int)r.below(15) : 2 + (int)r.below(6);
             std::vector<Delivery> ds;
             bool same_sig = r.chance(1, 2);
-            int si0 = r.pick(C.used_sigs);
+            std::vector<int> subscribed;
+            for (int si : C.used_sigs) if (model_count(C, si) > 0) subscribed.push_back(si);
+            auto pick_sig = [&]() -> int { return (!subscribed.empty() && r.chance(2, 3)) ? r.pick(subscribed) : r.pick(C.used_sigs); };
+            int si0 = pick_sig();
             for (int i = 0; i < nd; ++i) {
-                int si = same_sig ? si0 : r.pick(C.used_sigs);
+                int si = same_sig ? si0 : pick_sig();
                 if (model_count(C, si) == 0 && disp_is_default(C.disp[si].kind)) continue;    // the default action would end the process
                 int via = (int)r.below(10); via = via < 5 ? V_RAISE : via < 7 ? V_SIGQUEUE : V_LOOP_RAISE;
                 if (C.only_raise && via == V_SIGQUEUE) via = V_RAISE;
